@@ -1,6 +1,7 @@
 package batch
 
 import (
+	"errors"
 	"fmt"
 	"slices"
 	"strconv"
@@ -382,6 +383,10 @@ func (c *converter) ForEnd() error {
 }
 
 func (c *converter) Break() error {
+	// A break which is not within a for-loop (e.g. within a top-level switch) has no label to jump to.
+	if len(c.endLabels) == 0 {
+		return errors.New("break statement is only supported within a for-loop")
+	}
 	c.addLine(fmt.Sprintf("goto %s", c.mustCurrentEndLabel()))
 	return nil
 }
